@@ -6,7 +6,9 @@ for W, short in (("hypercorn.asyncio.worker_context", "asyncio"), ("hypercorn.tr
     WC = W + ":WorkerContext"
     cls(WC, fields={"max_requests": "opt int", "requests": "int", "terminate": "Event", "terminated": "Event"},
         immutable=["max_requests", "terminate", "terminated"],
-        inv=[("WorkerContext.inv.requests", "self.requests >= 0", "C18")])
+        inv=[("WorkerContext.inv.requests", "self.requests >= 0", "C18"),
+             # the two shutdown events are never cleared (nobody may: Event.clear requires not g_sticky)
+             ("WorkerContext.inv.sticky", "self.terminated.g_sticky and self.terminate.g_sticky", "C15,C07")])
     fn(WC + ".mark_request", params={}, effect="atomic",
        modifies=["self.requests", "self.terminate.flag"],
        ensures=[
@@ -18,8 +20,8 @@ for W, short in (("hypercorn.asyncio.worker_context", "asyncio"), ("hypercorn.tr
            ("C18.mark.disabled", "implies(self.max_requests is None, self.requests == old(self.requests))", "C18"),
        ],
        props=("C18", "C16"))
-    fn(WC + ".__init__", params={"max_requests": "opt int"},
-       ensures=[("C18.ctx.init", "self.requests == 0 and not self.terminate._event.flag and not self.terminated._event.flag", "C18,C16"),
+    fn(WC + ".__init__", params={"max_requests": "opt int"}, ghost_post=["self.terminate.g_sticky = True", "self.terminated.g_sticky = True"],
+       ensures=[("C18.ctx.init", "self.requests == 0 and not self.terminate.is_set() and not self.terminated.is_set()", "C18,C16"),
                 ("C18.ctx.budget", "self.max_requests == max_requests", "C18,C16")],
        props=("C18", "C16"))
 
@@ -28,13 +30,15 @@ for W, short in (("hypercorn.asyncio.worker_context", "asyncio"), ("hypercorn.tr
 # the abstract flag is the flag of the wrapped runtime event.
 for W, EV in (("hypercorn.asyncio.worker_context", "asyncio:Event"), ("hypercorn.trio.worker_context", "trio:Event")):
     EW = W + ":EventWrapper"
-    cls(EW, fields={"_event": "obj " + EV})
+    cls(EW, fields={"_event": "obj " + EV}, ghost={"g_sticky": "bool"},
+        # g_sticky (ghost): declared never-cleared by its owner; everybody respects it (clear() requires not g_sticky)
+        rely=[("EventWrapper.rely.sticky", "implies(old(self.g_sticky), self.g_sticky and implies(old(self._event.flag), self._event.flag))", "C15,C07")])
     fn(EW + ".__init__", params={}, ensures=[("C16.Event.init", "not self._event.flag", "C16")], props=("C16",))
     fn(EW + ".set", params={}, effect="atomic", modifies=["self._event.flag"],
        ensures=[("C16.Event.set", "self._event.flag", "C16")], props=("C16",))
     fn(EW + ".clear", params={}, effect="atomic", modifies=["self._event", "self._event.flag"],
        # the interface precondition (hypercorn.typing:Event.clear): never-cleared events are not cleared
-       requires=[("C16.Event.clear.pre.not-sticky", "not self._event.sticky")],
+       requires=[("C16.Event.clear.pre.not-sticky", "not self._event.sticky and not self.g_sticky")],
        ensures=[("C16.Event.clear", "not self._event.flag", "C16")], props=("C16",))
     fn(EW + ".is_set", params={}, effect="atomic", modifies=[], returns="bool",
        ensures=[("C16.Event.is_set", "result == self._event.flag", "C16")], props=("C16",))
